@@ -53,7 +53,7 @@ static void gen_operand(ByteSource& in, F& x, uint64_t precbits, long exp_center
   if (n && k == 3) { std::fill(v.begin(), v.end(), 0); v[n - 1] = 1ull << in.range(0, 63); }
   long ex = exp_center + (long)in.srange(-2, 2); if (in.chance(40)) ex = (long)in.srange(-40, 40);
   bool neg = in.flag();
-  for (size_t i = 0; i < n; i++) x.f->_mp_d[i] = v[i]; x.f->_mp_size = neg ? -(int)n : (int)n; x.f->_mp_exp = n ? ex : 0;
+  for (size_t i = 0; i < n; i++) x.f->_mp_d[i] = v[i]; x.f->_mp_size = neg ? -(int)n : (int)n; x.f->_mp_exp = n ? ex : 0; for (size_t i = n; i < (size_t)x.f->_mp_prec + 1; i++) x.f->_mp_d[i] = 0xdeadbeefdeadbeefull;   // stale limbs above the size are unspecified: poison
   x.v = read_mpf(x.f);
 }
 // destination: own precision, garbage value; optional precision history (set_prec / set_prec_raw)
